@@ -166,6 +166,15 @@ pub mod fs_filetype {
         #[verifier::external_body] pub fn is_char_device(&self) -> (r: bool) ensures r == (self.kind() == NodeKind::Char) { unimplemented!() }
         #[verifier::external_body] pub fn is_block_device(&self) -> (r: bool) ensures r == (self.kind() == NodeKind::Block) { unimplemented!() }
     }
+    /// std's `FileType: PartialEq` compares the type bits of st_mode
+    impl PartialEq for FileType {
+        #[verifier::external_body]
+        fn eq(&self, other: &FileType) -> (r: bool) { unimplemented!() }
+    }
+    impl vstd::std_specs::cmp::PartialEqSpecImpl for FileType {
+        open spec fn obeys_eq_spec() -> bool { true }
+        open spec fn eq_spec(&self, other: &FileType) -> bool { self.kind() == other.kind() }
+    }
 }
 
 /// std::fs::Metadata: an immutable snapshot taken by (l)stat / fstat
